@@ -1,7 +1,7 @@
 (* C03 — Encode then Decode is the identity on canonical values, a normal form otherwise. *)
 From Coq Require Import List ZArith NArith Bool.
 From Coq.Strings Require Import Byte.
-From OgRek Require Import Base Value Reader Decoder Encoder Norm EncoderFacts RoundTrip.
+From OgRek Require Import Base Value Reader Decoder Encoder Norm Insn EncProg PyVM PyVal PyVM2 EncoderFacts RoundTrip SimFacts LiftFacts ViaPython.
 Import ListNotations.
 
 (* STATUS.  C03_round_trip_partial is the property for every value in the fragment  norm c v = Some t
@@ -26,6 +26,27 @@ Theorem C03_round_trip_partial : forall c pd v t st rest,
     erase x = Some t.
 Proof. exact encode_decode. Qed.
 Print Assumptions C03_round_trip_partial.
+
+(* Maps, Dicts and structs (and everything else the documented type table covers): the round trip
+   stated through the documented Python value.  For every Go value v with pyval_of c v = Some x
+   (PyVal.v: the type table; C01), every protocol and both settings: Encode succeeds; its program
+   loads on the CPython machine to an object graph q that unfolds to x (U); and Decode of the bytes
+   (followed by anything) returns a Go value v' standing for q under the C06 relation R - for a map /
+   Dict / struct: an object holding exactly the assignments made, in iteration order (Core.c_dicts) -
+   or, with PyDict off, the documented error when a key cannot be a Go map key (e.g. a Tuple key).
+   There is no stale-view case: Encode never emits APPEND. *)
+Theorem C03_through_python_value : forall c pd v x rest,
+  (0 <= e_proto c <= 5)%Z -> pyval_of c v = Some x ->
+  exists ws q pstf,
+    run_w (encode c v) None = (ws, EOk) /\
+    qload (program c v) = Some (q, pstf) /\ U (q_heap pstf) x q /\
+    ((exists v' st' b' after,
+         decode (dcfg_of c pd) init_state (concat ws ++ rest) = ((Ok v', st'), after) /\
+         R pd (e_strict c) b' (q_heap pstf) v' q /\ Core pd (e_strict c) b' st' pstf)
+     \/ (pd = false /\ exists e st' after,
+           decode (dcfg_of c pd) init_state (concat ws ++ rest) = ((Err e, st'), after))).
+Proof. exact encode_decode_python. Qed.
+Print Assumptions C03_through_python_value.
 
 (* Encode never modifies its argument: the model is a pure function of the value (trivially);
    on the implementation the harness compares a deep dump before and after every Encode. *)
